@@ -60,7 +60,8 @@ class Run(object):
         self.seg = seg
         self.rng = rng or random.Random(0)
         self.proto = TorControlProtocol()
-        self.tr = proto_helpers.StringTransport()
+        self.tr = proto_helpers.StringTransportWithDisconnection()      # loseConnection() reports the loss at once
+        self.tr.protocol = self.proto
         self.cmds = []          # per serial: dict(text, written)
         self.res = []           # per serial: outcome record
         self.cbnow = []
@@ -143,6 +144,12 @@ class Run(object):
         if self.cmds[serial - 1].get("kind") == "chain":
             # the user's success callback submits a follow-up command
             self.proto.queue_command("GETINFO c%d" % serial)
+        if self.cmds[serial - 1].get("kind") == "closer" and not self.lost:
+            # the user's success callback drops the connection; the in-memory transport reports it synchronously
+            self.lost = True
+            self.pending = []
+            self.partial = b""
+            self.tr.loseConnection()
         return None
 
     def _err(self, f, serial):
@@ -428,6 +435,8 @@ def random_script(rng, length, lose=True, events=True):
                 replies += 1
                 if (k == "chain" and curcls == "2") or (k == "retry" and curcls == "5"):
                     kinds.append("plain")
+                if k == "closer" and curcls == "2":
+                    lost = True          # its success callback dropped the connection
             if pending == 0 and cur == "event":
                 # listener behaviours change registrations
                 for l in list(reg[curname]):
@@ -446,7 +455,7 @@ def random_script(rng, length, lose=True, events=True):
             continue
         r = rng.random()
         if r < 0.30:
-            k = rng.choice(["plain", "cb", "plain", "cb", "retry", "chain"])
+            k = rng.choice(["plain", "cb", "plain", "cb", "retry", "chain"] + (["closer"] if lose else []))
             script.append(dict(a="Submit", k=k))
             kinds.append(k)
         elif r < 0.45 and events:
